@@ -15,7 +15,8 @@ class C01(Prop):
             "distinct = distinct spec digests")
     reach = ["record_spans_3_segments", "three_records_one_segment", "one_byte_segments", "len_0", "len_16384",
              "cbc_extra_padding", "tls13_padding", "tls13_no_hs_secrets", "etm", "resume", "resumption_shares_master_secret", "sh_no_ext", "tickets",
-             "ipv6", "merge_first", "multi_conn", "early_data_before_peer_finished"]
+             "ipv6", "merge_first", "multi_conn", "early_data_before_peer_finished",
+             "encrypted_hello_request_mid_connection"]
 
     def plan(self, tier):
         p = super().plan(tier)
@@ -92,6 +93,8 @@ class C01(Prop):
                 out.count("reach:sh_no_ext")
             if conn.get("tickets") and conn["ver"] == T.TLS13:
                 out.count("reach:tickets")
+            if conn.get("hello_req") and conn["ver"] != T.TLS13:
+                out.count("reach:encrypted_hello_request_mid_connection")
             if conn["ver"] == T.TLS13 and not conn.get("hs_secrets", True):
                 out.count("reach:tls13_no_hs_secrets")
             if conn.get("merge_first"):
